@@ -507,7 +507,11 @@ impl PtraceDumper {
         // on the platforms we care about so the stack should appear after the
         // guard page.
         while !Self::may_be_stack(mapping) && (stack_pointer <= guard_page_max_addr) {
-            stack_pointer += self.page_size;
+            // The stack pointer may be within a page of the top of the address space
+            let Some(next_page) = stack_pointer.checked_add(self.page_size) else {
+                break;
+            };
+            stack_pointer = next_page;
             mapping = self.find_mapping(stack_pointer);
         }
 
